@@ -435,6 +435,10 @@ func TestMergeC08C09(t *testing.T) {
 					}
 				}
 				if target == nil {
+					// an OK nobody asked for: no request, no reply
+					if len(subs) == 0 && len(out) != 0 {
+						fail("C09", "ok-unsolicited", "exactly one aggregated OK per EVENT: a child's OK for an event the client has not submitted produces no reply", obs, "[]")
+					}
 					return
 				}
 				target.replies[i] = x
@@ -507,6 +511,9 @@ func TestMergeC08C09(t *testing.T) {
 					}
 				}
 				if target == nil {
+					if len(subs) == 0 && len(out) != 0 {
+						fail("C09", "count-unsolicited", "exactly one COUNT reply per COUNT request: a child's COUNT for a query the client has not sent produces no reply", obs, "[]")
+					}
 					return
 				}
 				target.replies[i] = x
@@ -592,7 +599,7 @@ func TestMergeC08C09(t *testing.T) {
 					rep(fmt.Sprintf("cnt%d", i), (wEv+1)/2)
 				}
 			}
-			acts = append(acts, "notice")
+			acts = append(acts, "notice", "unsolicited")
 			if nextChild == n && k > 3 {
 				acts = append(acts, "restart")
 			}
@@ -657,6 +664,18 @@ func TestMergeC08C09(t *testing.T) {
 					owesOK[i], owesCount[i] = nil, nil
 				}
 				c09.Label("session-restart")
+			case a == "unsolicited":
+				// a child answers something nobody asked: an OK for an event that was never
+				// submitted, a COUNT / EOSE for an id that was never used
+				i := rapid.IntRange(0, n-1).Draw(t, lab+"child")
+				switch rapid.IntRange(0, 2).Draw(t, lab+"what") {
+				case 0:
+					doEmit(i, mocrelay.NewServerOKMsg(gen.FakeID(7), rapid.Bool().Draw(t, lab+"acc"), "", "unsolicited"))
+				case 1:
+					doEmit(i, mocrelay.NewServerCountMsg("ghost", 5, nil))
+				default:
+					doEmit(i, mocrelay.NewServerEOSEMsg("ghost"))
+				}
 			case a == "notice":
 				doEmit(rapid.IntRange(0, n-1).Draw(t, lab+"child"), mocrelay.NewServerNoticeMsg("hello"))
 			case strings.HasPrefix(a, "closed"):
